@@ -420,12 +420,6 @@ int liberasurecode_encode(int desc,
 
     int blocksize = 0;      /* length of each of k data elements */
 
-    if (orig_data == NULL) {
-        log_error("Pointer to data buffer is null!");
-        ret = -EINVALIDPARAMS;
-        goto out;
-    }
-
     if (encoded_data == NULL) {
         log_error("Pointer to encoded data buffers is null!");
         return -EINVALIDPARAMS;
@@ -434,6 +428,16 @@ int liberasurecode_encode(int desc,
     if (encoded_parity == NULL) {
         log_error("Pointer to encoded parity buffers is null!");
         return -EINVALIDPARAMS;
+    }
+
+    /* Nothing allocated yet: the error path below must not free caller garbage */
+    *encoded_data = NULL;
+    *encoded_parity = NULL;
+
+    if (orig_data == NULL) {
+        log_error("Pointer to data buffer is null!");
+        ret = -EINVALIDPARAMS;
+        goto out;
     }
 
     if (fragment_len == NULL) {
